@@ -206,15 +206,22 @@ func suiteCollection(r *Rng, n int, thorough bool, o *Out) {
 				}
 			case k == 5:
 				a := jsonapi.Attr{Name: names[r.IntN(len(names))], Type: kinds[r.IntN(len(kinds))], Nullable: r.bool()}
+				validKind := true
+				if r.chance(1, 8) {
+					// a kind that is none of the fourteen, nullable or not: never accepted
+					a.Type = []int{0, 15, 99}[r.IntN(3)]
+					validKind = false
+					o.stat("addattr.invalid-kind")
+				}
 				op = lst("col", "addattr", sxAttr(a))
 				var err error
 				panicked, _ = guard(func() { err = sc.AddAttr(a) })
 				_, isA := cur.Attrs[a.Name]
 				_, isR := cur.Rels[a.Name]
-				if (err == nil) != (!isA && !isR) {
+				if (err == nil) != (!isA && !isR && validKind) {
 					pv = "FAIL:AddAttr result"
 				}
-				if !isA && !isR {
+				if !isA && !isR && validKind {
 					cur.Attrs[a.Name] = a
 				}
 			case k == 6:
